@@ -147,7 +147,7 @@ def run(ctx, canary=False):
     mc = os.path.join(ctx.work, "MC_Loss.tla")
     with open(mc, "w") as f:
         f.write("---- MODULE MC_Loss ----\nEXTENDS Loss\nMCInsts == %s\n====\n" % to_tla(tinsts))
-    cfg = ("CONSTANTS\n  Insts <- MCInsts\n  LipRule = \"%s\"\nSPECIFICATION Spec\nINVARIANT ExactlyOnce\nINVARIANT GradIsDerivative\n"
+    cfg = ("CONSTANTS\n  Insts <- MCInsts\n  LipRule = \"%s\"\nSPECIFICATION Spec\nINVARIANT ExactlyOnce\nINVARIANT GradIsDerivative\nINVARIANT L1SubGradient\n"
            "CHECK_DEADLOCK FALSE\n" % LIP_RULE)
     r = ctx.tlc(mc, cfg, name="Loss", workers=8, extra_modules=("est",), timeout=7200)
     if r.violated:
@@ -239,6 +239,10 @@ def check_instance(ctx, inst, e, st, nscale=1.0, history=False):
         l1, g1 = eng1._marginal_loss(mu1)
         if not math.isclose(l1, e["l1x2"] / 2.0 / nscale, rel_tol=1e-12, abs_tol=1e-12 / nscale):
             bad.append("L1 loss %r, spec %r" % (l1, e["l1x2"] / 2.0 / nscale))
+        G1 = sum(g1[cl].expand(eng1.domain).values for cl in g1)
+        wantG1 = np.array(e["g1joint2"], dtype=float).reshape(G1.shape) / 2.0 / nscale
+        if not np.allclose(G1, wantG1, rtol=1e-12, atol=1e-12 / nscale):
+            bad.append("L1 gradient (summed over cliques) %s, spec %s" % (G1.reshape(-1).tolist(), wantG1.reshape(-1).tolist()))
     except Exception as ex:
         ctx.violation("loss machinery raised %r" % ex, info, {"kind": "crash"})
         return
